@@ -676,20 +676,21 @@ def Client.run (cl : Client) : List Op → Client × List (Status × List Packet
 
 /-! ### construction -/
 
+/-- an allocator from the `(size, pos, addr_offset)` of the partition arithmetic -/
+def mkAlloc (a : Int × Int × Int) : Option CBA :=
+  if a.1 < 0 || a.2.1 < 0 || a.2.2 < 0 then none else CBA.init a.1.toNat a.2.1.toNat a.2.2.toNat
+
 /-- `Server(name, addr, options)` + `_set_client_id(c)`: allocators from the regenerated
     partition arithmetic (`none` if an allocator constructor raises) -/
-def Core.init (o : Opts) (latency : Option Rat) : Option Core := do
-  let mk := fun (a : Int × Int × Int) =>
-    if a.1 < 0 || a.2.1 < 0 || a.2.2 < 0 then none else CBA.init a.1.toNat a.2.1.toNat a.2.2.toNat
-  let (ca, aa) := busAllocArgs o
-  let cb ← mk ca
-  let ab ← mk aa
-  let bb ← mk (bufferAllocArgs o)
-  let (u, i) := nodeAllocArgs o
-  if u < 0 then none
-  let nia ← NIA.init u.toNat i
-  if o.client_id < 0 || o.max_logins < 0 then none
-  pure { nia := nia, cbus := cb, abus := ab, balloc := bb, clientId := o.client_id.toNat,
-         maxLogins := o.max_logins.toNat, latency := latency }
+def Core.init (o : Opts) (latency : Option Rat) : Option Core :=
+  match mkAlloc (busAllocArgs o).1, mkAlloc (busAllocArgs o).2, mkAlloc (bufferAllocArgs o) with
+  | some cb, some ab, some bb =>
+    if (nodeAllocArgs o).1 < 0 || o.client_id < 0 || o.max_logins < 0 then none
+    else match NIA.init (nodeAllocArgs o).1.toNat (nodeAllocArgs o).2 with
+      | some nia =>
+        some { nia := nia, cbus := cb, abus := ab, balloc := bb, clientId := o.client_id.toNat,
+               maxLogins := o.max_logins.toNat, latency := latency }
+      | none => none
+  | _, _, _ => none
 
 end Sc3Verif.C17
